@@ -120,7 +120,7 @@ class ArithOptimal(Contract):
 
     def inputs(self, cfg, D):
         sx, wx, fx = cfg['x']; sy, wy, fy = cfg['y']
-        return {'cx': codes_in(D, 'cx', nelem(cfg['shx']), sx, wx), 'cy': codes_in(D, 'cy', nelem(cfg['shy']), sy, wy),
+        return {'cx': codes_in(D, 'cx', nelem(cfg['shx']), sx, cfg.get('widen_from') or wx), 'cy': codes_in(D, 'cy', nelem(cfg['shy']), sy, wy),
                 'ix': D.bool('inacc_x'), 'iy': D.bool('inacc_y'),
                 # operands may carry sticky overflow / underflow flags from their own history: the result must not inherit them
                 'ox': D.bool('ovf_x'), 'ux': D.bool('unf_x'), 'oy': D.bool('ovf_y'), 'uy': D.bool('unf_y')}
@@ -133,6 +133,9 @@ class ArithOptimal(Contract):
         y = make_fxp(P, sy, wy, fy, codes=inp['cy'], shape=tuple(cfg['shy']), cfg={'overflow': 'wrap'},
                      status={'inaccuracy': inp['iy'], 'overflow': inp.get('oy', False), 'underflow': inp.get('uy', False)},
                      vdtype=int if (cfg.get('vint') and fy <= 0) else float)
+        if cfg.get('widen_from'):
+            x = make_fxp(P, sx, cfg['widen_from'], fx, codes=inp['cx'], shape=tuple(cfg['shx']), cfg={'op_method': cfg['method'], 'rounding': 'around'}, vdtype=float)
+            x.resize(n_word=wx)
         bx, by = dict(x.__dict__), dict(y.__dict__)
         vx0, vy0 = list(elems(x.val)), list(elems(y.val))
         route = cfg.get('route', 'op')
@@ -218,7 +221,7 @@ class ArithImposed(Contract):
     layer = 5
     uses = LOWER
     allowed_exceptions = ('ValueError',)
-    props = {'format': ['C08', 'C02'], 'code_eq_Q': ['C08'], 'flag_overflow': ['C08', 'C04'], 'flag_underflow': ['C08', 'C04'],
+    props = {'format': ['C08', 'C02'], 'code_eq_Q': ['C08', 'C03'], 'flag_overflow': ['C08', 'C04'], 'flag_underflow': ['C08', 'C04'],
              'returns_out': ['C08'], 'in_range': ['C02'], 'governing_config': ['C08'], 'operands_unchanged': ['C20'],
              'separate_state': ['C20'], 'no_exception': ['C08'], 'inaccuracy_propagates': ['C04'], 'flag_inaccuracy': ['C04', 'C08'], 'rejects_signed_into_unsigned': ['C08']}
 
@@ -254,6 +257,17 @@ class ArithImposed(Contract):
                                 rule, mode = MODES[k % len(MODES)]
                                 yield dict(op=op, x=list(x), y=list(y), policy='optimal', target=[kind] + list(t), method=method, rule=rule, mode=mode)
 
+        # NumPy ufunc route with the configured output register / template (config.array_op_out, array_op_out_like).
+        # (results of more than 53 bits reach the register through a float64 product in the library: outside the provable domain)
+        k = 0
+        for x, y in [((True, 8, 4), (True, 8, 3)), ((False, 6, 2), (True, 5, 0)), ((True, 12, 12), (False, 12, 0))]:
+            for op in ('add', 'sub', 'mul'):
+                for t in [(True, 16, 8), (False, 20, 4), (True, 8, 0)]:
+                    for kind in ('array_out', 'array_out_like'):
+                        for rule, mode in (MODES if x[1] <= 8 and tier == 'thorough' else [MODES[k % len(MODES)], ('trunc', 'wrap')]):
+                            k += 1
+                            yield dict(op=op, x=list(x), y=list(y), policy='optimal', target=[kind] + list(t), method='raw', rule=rule, mode=mode)
+
     def inputs(self, cfg, D):
         sx, wx, fx = cfg['x']; sy, wy, fy = cfg['y']
         d = {'cx': codes_in(D, 'cx', 1, sx, wx), 'cy': codes_in(D, 'cy', 1, sy, wy), 'ix': D.bool('inacc_x'), 'iy': D.bool('inacc_y')}
@@ -270,17 +284,17 @@ class ArithImposed(Contract):
         out = None
         if tgt is not None:
             out = make_fxp(P, tgt[1], tgt[2], tgt[3], codes=[0], shape=(), cfg=gov, status=inp.get('st_out'), vdtype=float)
-            xcfg['op_out' if tgt[0] == 'out' else 'op_out_like'] = out
+            xcfg[{'out': 'op_out', 'out_like': 'op_out_like', 'array_out': 'array_op_out', 'array_out_like': 'array_op_out_like'}[tgt[0]]] = out
         x = make_fxp(P, sx, wx, fx, codes=inp['cx'], shape=(), cfg=xcfg, status={'inaccuracy': inp['ix']}, vdtype=int if (cfg.get('vint') and fx <= 0) else float)
         y = make_fxp(P, sy, wy, fy, codes=inp['cy'], shape=(), cfg=dict(other), status={'inaccuracy': inp['iy']}, vdtype=int if (cfg.get('vint') and fy <= 0) else float)
         bx, by = dict(x.__dict__), dict(y.__dict__)
         vx0, vy0 = list(elems(x.val)), list(elems(y.val))
-        z = apply_op(cfg['op'], x, y)
+        z = apply_op(cfg['op'], x, y, 'np' if (tgt and tgt[0].startswith('array_')) else 'op', P)
         unchanged = all(x.__dict__[k] is bx[k] for k in bx) and all(y.__dict__[k] is by[k] for k in by) \
             and same_elems(elems(x.val), vx0) and same_elems(elems(y.val), vy0)
         sep = (z is not x and z is not y and z.config is not x.config and z.config is not y.config and z.status is not x.status
                and z.status is not y.status and not shares_buffer(z.val, x.val) and not shares_buffer(z.val, y.val))
-        if out is not None and tgt[0] == 'out_like':
+        if out is not None and tgt[0] in ('out_like', 'array_out_like'):
             sep = sep and z is not out and z.config is not out.config and z.status is not out.status
         o = obs_fxp(z)
         o.update(unchanged=unchanged, separate=sep, returns_out=(z is out))
@@ -290,7 +304,7 @@ class ArithImposed(Contract):
         op = cfg['op']
         x, y = tuple(cfg['x']), tuple(cfg['y'])
         tgt = cfg['target']
-        must_reject = tgt is not None and not tgt[1] and (x[0] or y[0])
+        must_reject = tgt is not None and not tgt[1] and (x[0] or y[0]) and not tgt[0].startswith('array_')   # the array register converts (C10)
         if obs['exc']:
             # a signed result must not be stored silently into an unsigned out / out_like: documented rejection
             return {'rejects_signed_into_unsigned': obs['exc'] == 'ValueError' and must_reject}
@@ -305,14 +319,14 @@ class ArithImposed(Contract):
                'governing_config': And(obs['rounding'] == cfg['rule'], obs['overflow'] == cfg['mode']),
                'operands_unchanged': obs['unchanged'], 'separate_state': obs['separate']}
         if tgt is not None:
-            out['returns_out'] = obs['returns_out'] == (tgt[0] == 'out')
+            out['returns_out'] = obs['returns_out'] == (tgt[0] in ('out', 'array_out'))
         cz = M(elems(obs['val'])[0])
         ex = exact_scaled(op, M(inp['cx'][0]), x[2], M(inp['cy'][0]), y[2], F)
         R = ROUND(ex, cfg['rule'])
         out['code_eq_Q'] = eq(cz, OVF(R, S, W, cfg['mode']))
         out['in_range'] = And(cz >= lo, cz <= hi)
         st = obs['status']
-        o0 = inp.get('st_out') if (tgt and tgt[0] == 'out') else None
+        o0 = inp.get('st_out') if (tgt and tgt[0] in ('out', 'array_out')) else None
         out['flag_overflow'] = Iff(B(st['overflow']), Or(R > hi, B(o0['overflow']) if o0 else False))
         out['flag_underflow'] = Iff(B(st['underflow']), Or(R < lo, B(o0['underflow']) if o0 else False))
         out['inaccuracy_propagates'] = Implies(Or(B(inp['ix']), B(inp['iy'])), B(st['inaccuracy']))
@@ -445,6 +459,9 @@ class ArithWide(ArithOptimal):
                     yield dict(op=op, x=list(x), y=list(y), method='raw', shx=[], shy=[])
                     if k % 4 == 0:
                         yield dict(op=op, x=list(x), y=list(y), method='raw', shx=[], shy=[], route=('func', 'np')[(k // 4) % 2])
+                    if x[1] >= 64 and k % 3 == 0:
+                        # the wide operand was created narrower and widened by resize(): it must have moved to Python-int storage
+                        yield dict(op=op, x=list(x), y=list(y), method='raw', shx=[], shy=[], widen_from=50)
                     if 'F21' not in open_findings() and k % 5 == 0:
                         # open finding F21: the value ('repr') method computes on float64 / int64 values
                         yield dict(op=op, x=list(x), y=list(y), method='repr', shx=[], shy=[], vint=bool(k % 2))
@@ -480,7 +497,9 @@ class ArithConst(Contract):
     name = 'objects:Fxp.__add__/__sub__/__mul__[constant operand]'
     layer = 5
     uses = LOWER
-    props = {'*': ['C08'], 'in_range': ['C02']}
+    props = {'*': ['C08'], 'in_range': ['C02'], 'code_eq_Q': ['C08', 'C07']}      # C07: the reflected / constant forms of +, -, * are the same operations
+    primary = ['C08']
+    secondary_stride = 3
 
     CONSTS = [1.5, -0.75, 2, 0.125, 3, -1, 100.0, 0]
 
